@@ -68,6 +68,9 @@ func (s *gkvp) Add(as ...Attr) {
 
 func (s *gkvp) SerializeValueTo(pc *PrintCtx) {
 	if pc.jsonMode {
+		// a group in value position is an object holding that group
+		pc.Begin()
+		defer pc.End(false)
 		if pc.noColor {
 			pc.pcAppendStringKey(s.key)
 			pc.pcAppendByte(':')
@@ -91,11 +94,15 @@ func (s *gkvp) SerializeValueTo(pc *PrintCtx) {
 	// if sb.jsonMode {
 	// 	sb.appendRune('}')
 	// }
-	_ = serializeAttrs(pc, s.items)
+	s.items.SerializeValueTo(pc)
 }
 
+// SerializeValueTo prints the attributes as the value of a group: a
+// nested object in JSON mode, dotted members otherwise.
 func (s Attrs) SerializeValueTo(pc *PrintCtx) {
+	pc.Begin()
 	_ = serializeAttrs(pc, s)
+	pc.End(false)
 }
 
 func dedupeSlice[S ~[]E, E any](x S, cmp func(a, b E) bool) S {
@@ -165,7 +172,10 @@ func serializeAttrs(pc *PrintCtx, kvps Attrs) (err error) { //nolint:revive
 		}
 
 		if pc.noColor {
-			pc.pcAppendComma()
+			// no member separator right after the opening brace of a nested object
+			if !pc.jsonMode || len(pc.buf) == 0 || pc.buf[len(pc.buf)-1] != '{' {
+				pc.pcAppendComma()
+			}
 		} else {
 			pc.pcAppendByte(' ')
 			ct.echoColorAndBg(pc, pc.clr, pc.bg)
